@@ -295,6 +295,26 @@ bool same_value(const RCP<const Basic> &a, const RCP<const Basic> &b)
     return eq(*expand(sub(a, b)), *zero);
 }
 
+// number of nodes of an expression tree, counted up to `cap`
+size_t expr_size(const Basic &b, size_t cap)
+{
+    size_t n = 1;
+    for (const auto &a : b.get_args()) {
+        if (n >= cap)
+            break;
+        n += expr_size(*a, cap - n);
+    }
+    return n;
+}
+
+// Entries of pool members are kept small. Without this, repeated products of
+// symbolic matrices square the size of the entries at every step and both the
+// library and the expand()-based value oracle take unbounded time on a history
+// that says nothing new about CSR structure. A member with an oversized entry
+// is replaced - in its CSR and its dense form alike, through set() - by a
+// matrix with the same sparsity pattern and small values chosen by position.
+const size_t ENTRY_LIMIT = 40;
+
 std::string canonical_problem(const CSRMatrix &m, bool loose)
 {
     std::vector<unsigned> p, j;
@@ -466,6 +486,34 @@ void exec(Run &run)
         return q;
     };
 
+    auto tame = [&](Pair &p) {
+        if (!p.valid || run.failed())
+            return;
+        bool big = false;
+        for (unsigned i = 0; i < p.d.nrows() && !big; i++)
+            for (unsigned j = 0; j < p.d.ncols() && !big; j++)
+                big = expr_size(*p.d.get(i, j), ENTRY_LIMIT + 1) > ENTRY_LIMIT;
+        if (!big)
+            return;
+        unsigned r = p.d.nrows(), c = p.d.ncols();
+        Pair q;
+        q.s = CSRMatrix(r, c);
+        q.d = DenseMatrix(r, c);
+        for (unsigned i = 0; i < r; i++)
+            for (unsigned j = 0; j < c; j++) {
+                RCP<const Basic> v = zero;
+                if (!eq(*p.d.get(i, j), *zero))
+                    v = VALS[1 + (i * 5 + j * 3) % (VALS.size() - 1)];
+                q.d.set(i, j, v);
+                q.s.set(i, j, v);
+            }
+        q.valid = true;
+        p = q;
+        run.probe("oversized_entries_replaced");
+        run.ev("entries replaced by small values (same pattern)");
+        check_pair(run, p, "replace-entries");
+    };
+
     for (size_t k = 0; k < ops.size() && !run.failed(); k++) {
         const Json &o = ops[k];
         const std::string op = o.gets("op");
@@ -581,6 +629,7 @@ void exec(Run &run)
                     run.probe("unary_op_on_non_square");
                 check_pair(run, res, op);
                 pool[o.geti("dst") % npool] = res;
+                tame(pool[o.geti("dst") % npool]);
                 mutations++;
             } else if (op == "binop" || op == "emul") {
                 Pair &a = ensure((unsigned)o.geti("a"));
@@ -634,6 +683,7 @@ void exec(Run &run)
                 run.ev(f + " " + std::to_string(r) + "x" + std::to_string(c));
                 check_pair(run, res, "binop-" + f);
                 pool[o.geti("dst") % npool] = res;
+                tame(pool[o.geti("dst") % npool]);
                 mutations++;
             } else if (op == "matmat") {
                 Pair &a = ensure((unsigned)o.geti("a"));
@@ -721,6 +771,7 @@ void exec(Run &run)
                     // store the normalised product so later steps use it
                     Pair norm = reshaped(res, r, c);
                     pool[o.geti("dst") % npool] = norm;
+                    tame(pool[o.geti("dst") % npool]);
                 }
                 mutations++;
             } else if (op == "scale_rows" || op == "scale_cols") {
@@ -772,6 +823,7 @@ void exec(Run &run)
                             p.d.set(i, j, p.s.get(i, j));
                     check_pair(run, p, op + "-threw");
                 }
+                tame(p);
                 mutations++;
             } else if (op == "diag") {
                 Pair &p = ensure((unsigned)o.geti("m"));
@@ -815,6 +867,7 @@ void exec(Run &run)
                        + std::to_string(nv));
                 check_pair(run, res, "jacobian");
                 pool[o.geti("dst") % npool] = res;
+                tame(pool[o.geti("dst") % npool]);
             } else if (op == "notimpl") {
                 Pair &p = ensure((unsigned)o.geti("m"));
                 if (p.loose)
